@@ -17,9 +17,9 @@ def obligations(tier):
     for f in ("cycle_sm", "cycle_ssc"):
         if tier == "quick":
             pfxs = (0, 5) if f == "cycle_sm" else (0, 4, 6)
-            k1s = (1, 2, 3, 4) if f == "cycle_sm" else (1, 2, 3, 4, 10)
+            k1s = (1, 2, 3, 4) if f == "cycle_sm" else (1, 2, 3, 4, 10, 11)
         else:
-            pfxs, k1s = range(7), range(11)
+            pfxs, k1s = range(7), range(13)
         for pfx in pfxs:
             for k1 in k1s:
                 for n1 in range(4):
